@@ -687,3 +687,23 @@ def c02(chk):
     chk.assumptions += ["validation bounds are set explicitly (no dependence on the current time)",
                         "with fail-fast any one false condition's error is accepted (the property says 'an error identifying it')",
                         "Ed25519 primitive trusted; status checking with RevocationBitmap2022 only"]
+
+
+# ------------------------------------------------------------------------------------------------
+# C03 — JWT presentation validation
+# ------------------------------------------------------------------------------------------------
+
+@plan("C03")
+def c03(chk):
+    chk.rule = ("TLC enumerates (a) the binding product: kid as full id / '#fragment' / bare fragment of two own methods, of a "
+                "foreign-DID method listed in the holder document, a missing method, a method under the wrong DID, or absent x "
+                "configured method id x signing key (3) x scope (4) x nonce on either side (3x3) x issuer claim (holder / other "
+                "DID / not a DID) = 11 664 rows; (b) the claims product: exp absent/-1/0/+1 s/out of range x issuance none / nbf / "
+                "iat / both (nbf decisive) at -1/0/+1 s / out of range x vp.holder absent/equal/different x vp.id absent/equal/"
+                "different/present without jti = 660 rows. Each row is a real EdDSA-signed token validated against a real holder "
+                "document: accept <=> all conditions, and on success holder, id, audience, dates and custom claims equal the "
+                "signed ones.")
+    r = chk.mc("PresentationValidation", "PresentationValidation_%s.cfg" % chk.tier, workers=4, timeout=600, heap="3g")
+    chk.replay(r["cases_file"], timeout=3000)
+    chk.canary_cases(r["cases_file"], flip_validation_case)
+    chk.assumptions += ["bounds explicit; Ed25519 trusted; error kinds are not compared (the property only asks for an error)"]
